@@ -29,7 +29,19 @@ func cmpInt(a, b int) int {
 }
 
 func runC01(c *core.Ctx) {
-	switch c.R.Intn(7) {
+	switch c.R.Intn(8) {
+	case 7: // comparators that return magnitudes, not just -1/0/+1 (a total order all the same)
+		n := c.R.Range(4, 40)
+		u := make([]int, n)
+		for i := range u {
+			u[i] = c.R.Intn(100000) - 50000
+		}
+		u = dedup(u)
+		if c.R.Bool() {
+			avlCase(c, "int-magnitude-cmp", u, func(a, b int) int { return a - b }, true)
+		} else {
+			avlCase(c, "int-magnitude-cmp", u, func(a, b int) int { return cmpInt(a, b) * (1 << 40) }, true)
+		}
 	case 6: // big trees in extreme shapes: sparsest (Fibonacci) AVL shapes built without rotations, sorted runs, random
 		r := c.R
 		var pre []int
